@@ -35,6 +35,7 @@ def run(ctx, rep):
     rep.run(RC.rule_namespace_normal_form, ctx, rep, "Y6")
     rep.run(RC.rule_every_part_is_written, ctx, rep, "Y7")
     rep.run(RC.rule_build_files_agree, ctx, rep, "Y8")
+    rep.run(RF.rule_configuration_is_fixed, ctx, rep, "Y9")
     # Y5: the entry points leave the lists they are given (sources, ignore list, namespaces) as they were
     rep.run(RA.rule_mutate_only_fresh, ctx, rep, "Y5", "gtwrap/pybind_wrapper", {}, min_sites=3)
     rep.run(RF.rule_locals_defined, ctx, rep, "U1", packages=("scripts/", "gtwrap/pybind_wrapper.py", "gtwrap/matlab_wrapper"), min_functions=3)
